@@ -1100,7 +1100,7 @@ def translate(text, only=None, opts=None, module=None):
         for k, bits in (('float', 'uint32_t'), ('double', 'uint64_t')):
             for op, sym in (('fadd', '+'), ('fmul', '*')):
                 hdr += ['#ifdef __CPROVER__', '%s __CPROVER_uninterpreted_%s_%s(%s,%s);' % (k, op, k, k, k),
-                        'static inline %s verif_uf_%s_%s(%s a, %s b) { %s x, y; memcpy(&x, &a, sizeof x); memcpy(&y, &b, sizeof y); return x <= y ? __CPROVER_uninterpreted_%s_%s(a, b) : __CPROVER_uninterpreted_%s_%s(b, a); }' % (k, op, k, k, k, bits, op, k, op, k),
+                        'static inline %s verif_uf_%s_%s(%s a, %s b) { union { %s f; %s u; } x, y; x.f = a; y.f = b; return x.u <= y.u ? __CPROVER_uninterpreted_%s_%s(a, b) : __CPROVER_uninterpreted_%s_%s(b, a); }' % (k, op, k, k, k, k, bits, op, k, op, k),
                         '#else', 'static inline %s verif_uf_%s_%s(%s a, %s b) { return a %s b; }' % (k, op, k, k, k, sym), '#endif']
         hdr += ['#endif']
     hdr += stubs
